@@ -69,6 +69,7 @@ fn predicted_rebuild(len0: usize, rep: (usize, Option<usize>)) -> &'static str {
 
 pub fn run_hint_case(b: &HintBody) -> Result<HintOut, String> {
     ledger_reset();
+    crate::hashers::reset_instances();
     disarm_all();
     crate::hashers::set_current(b.cfg.hasher);
     let mut q = construct(b.cfg.kind, b.cfg.ctor);
